@@ -151,7 +151,10 @@ def cases_for(H, tmp, rng):
                 lines.append([cast(t) for t in toks])
             gl = G.glist([G.lbls(m) for m in lines])
             cs.append(f"(CTo ToList (RpList {gl}))")
-            cs.append(f"(CFrom (FromEdgeLines {gl}) {observe_result(lambda: xgi.read_edgelist(p, delimiter=delim, nodetype=xcast))})")
+            # add_edge turns each line into set(members) and visits the nodes in the iteration order of that
+            # set: the model is given the members in that order (same process, same hash seed)
+            gl_iter = G.glist([G.lbls(list(set(m))) for m in lines])
+            cs.append(f"(CFrom (FromEdgeLines {gl_iter}) {observe_result(lambda: xgi.read_edgelist(p, delimiter=delim, nodetype=xcast))})")
             xgi.write_bipartite_edgelist(H, p, delimiter=wd)
             pairs = []
             for line in open(p, encoding="utf-8").read().split("\n")[:-1]:
